@@ -1,11 +1,670 @@
-//! C05 — not built yet.
+//! C05 — set operations over k sorted streams (union, intersection, difference,
+//! symmetric_difference) and is_disjoint / is_subset / is_superset.
+//!
+//! case: "<op>\t<api>:<kinds>\t<streams>"
+//!   op      union | intersection | symdiff | difference | disjoint | subset | superset
+//!   api     raw (fst::raw::OpBuilder) | map (fst::map::OpBuilder) | set (fst::set::OpBuilder, values all 0)
+//!   kinds   one letter per stream: f = whole FST, r = range over a larger FST, s = search with an
+//!           automaton accepting exactly the wanted keys over a larger FST, u = user Streamer over a Vec
+//!   streams "." (none) or stream|stream|…; stream = "_" (empty) or hexkey:val,… ("-" = empty key)
+//! The model side ignores the second field.  Every case is also run through the baseline
+//! (raw API, all streams whole FSTs); disagreement between the two is an X failure.
 use crate::common::*;
+use fst::automaton::Automaton;
+use fst::raw::{self, Output};
+use fst::{IntoStreamer, Map, Set, Streamer};
+use std::collections::BTreeSet;
+use std::sync::Arc;
+
 pub struct P;
-impl Prop for P {
-    fn generate(&self, _tier: Tier, _rng: &mut Rng, _stats: &mut Stats) -> Vec<String> {
+
+type Kv = Vec<(Vec<u8>, u64)>;
+type Items = Vec<(Vec<u8>, Vec<(usize, u64)>)>;
+
+// ---------- user streamers ----------
+struct VecRaw {
+    v: Kv,
+    i: usize,
+}
+impl<'a> Streamer<'a> for VecRaw {
+    type Item = (&'a [u8], Output);
+    fn next(&'a mut self) -> Option<(&'a [u8], Output)> {
+        if self.i < self.v.len() {
+            self.i += 1;
+            let (k, v) = &self.v[self.i - 1];
+            Some((&k[..], Output::new(*v)))
+        } else {
+            None
+        }
+    }
+}
+struct VecMap {
+    v: Kv,
+    i: usize,
+}
+impl<'a> Streamer<'a> for VecMap {
+    type Item = (&'a [u8], u64);
+    fn next(&'a mut self) -> Option<(&'a [u8], u64)> {
+        if self.i < self.v.len() {
+            self.i += 1;
+            let (k, v) = &self.v[self.i - 1];
+            Some((&k[..], *v))
+        } else {
+            None
+        }
+    }
+}
+struct VecSet {
+    v: Kv,
+    i: usize,
+}
+impl<'a> Streamer<'a> for VecSet {
+    type Item = &'a [u8];
+    fn next(&'a mut self) -> Option<&'a [u8]> {
+        if self.i < self.v.len() {
+            self.i += 1;
+            Some(&self.v[self.i - 1].0[..])
+        } else {
+            None
+        }
+    }
+}
+/// a user type that is only IntoStreamer (not itself a Streamer)
+struct IntoVecRaw(Kv);
+impl<'a> IntoStreamer<'a> for IntoVecRaw {
+    type Item = (&'a [u8], Output);
+    type Into = VecRaw;
+    fn into_stream(self) -> VecRaw {
+        VecRaw { v: self.0, i: 0 }
+    }
+}
+
+/// accepts exactly the keys of a finite set; state = bytes read so far
+#[derive(Clone)]
+struct Exact(Arc<BTreeSet<Vec<u8>>>);
+impl Automaton for Exact {
+    type State = Vec<u8>;
+    fn start(&self) -> Vec<u8> {
         vec![]
     }
-    fn execute(&self, _case: &str) -> String {
-        String::new()
+    fn is_match(&self, s: &Vec<u8>) -> bool {
+        self.0.contains(s)
+    }
+    fn accept(&self, s: &Vec<u8>, b: u8) -> Vec<u8> {
+        let mut t = s.clone();
+        t.push(b);
+        t
+    }
+}
+
+// ---------- stream sources ----------
+/// what one stream is made from; `big` = wanted keys plus decoys
+struct Src {
+    kind: char,
+    want: Kv,
+    big: Kv,
+    lohi: Option<(Vec<u8>, Vec<u8>)>,
+    exact: Exact,
+}
+
+fn make_src(kind: char, want: &Kv) -> Src {
+    let keys: BTreeSet<Vec<u8>> = want.iter().map(|(k, _)| k.clone()).collect();
+    let mut big: Kv = want.clone();
+    let lohi = want.first().map(|f| (f.0.clone(), want.last().unwrap().0.clone()));
+    match kind {
+        'r' => {
+            // decoys strictly outside [lo, hi]
+            match &lohi {
+                Some((lo, hi)) => {
+                    if !lo.is_empty() {
+                        big.push((vec![], 7));
+                        if lo.len() > 1 {
+                            big.push((lo[..lo.len() - 1].to_vec(), 9));
+                        }
+                    }
+                    let mut a = hi.clone();
+                    a.push(0);
+                    big.push((a, 11));
+                    let mut b = hi.clone();
+                    b.extend_from_slice(&[255, 255]);
+                    big.push((b, 13));
+                }
+                None => {
+                    big.push((vec![], 3));
+                    big.push((b"q".to_vec(), 4));
+                }
+            }
+        }
+        's' => {
+            // decoys interleaved with the wanted keys
+            let mut extra: BTreeSet<Vec<u8>> = BTreeSet::new();
+            for (k, _) in want {
+                let mut a = k.clone();
+                a.push(1);
+                extra.insert(a);
+                if !k.is_empty() {
+                    extra.insert(k[..k.len() - 1].to_vec());
+                }
+            }
+            extra.insert(b"m".to_vec());
+            extra.insert(vec![]);
+            for e in extra {
+                if !keys.contains(&e) {
+                    big.push((e, 5));
+                }
+            }
+        }
+        _ => {}
+    }
+    big.sort();
+    big.dedup_by(|a, b| a.0 == b.0);
+    Src { kind, want: want.clone(), big, lohi, exact: Exact(Arc::new(keys)) }
+}
+
+fn parse_streams(s: &str) -> Vec<Kv> {
+    if s == "." {
+        return vec![];
+    }
+    s.split('|')
+        .map(|st| {
+            if st == "_" {
+                vec![]
+            } else {
+                st.split(',')
+                    .map(|e| {
+                        let mut it = e.split(':');
+                        let k = unhex(it.next().unwrap());
+                        let v: u64 = it.next().unwrap().parse().unwrap();
+                        (k, v)
+                    })
+                    .collect()
+            }
+        })
+        .collect()
+}
+
+fn show_streams(ss: &[Kv]) -> String {
+    if ss.is_empty() {
+        return ".".to_string();
+    }
+    ss.iter()
+        .map(|s| {
+            if s.is_empty() {
+                "_".to_string()
+            } else {
+                s.iter().map(|(k, v)| format!("{}:{}", hex(k), v)).collect::<Vec<_>>().join(",")
+            }
+        })
+        .collect::<Vec<_>>()
+        .join("|")
+}
+
+fn show_items(items: &Items) -> String {
+    if items.is_empty() {
+        return ".".to_string();
+    }
+    items
+        .iter()
+        .map(|(k, o)| format!("{}={}", hex(k), o.iter().map(|(i, v)| format!("{}:{}", i, v)).collect::<Vec<_>>().join(",")))
+        .collect::<Vec<_>>()
+        .join(";")
+}
+
+/// entries of every key sorted by stream index
+fn by_index(items: &Items) -> Items {
+    items
+        .iter()
+        .map(|(k, o)| {
+            let mut o = o.clone();
+            o.sort();
+            (k.clone(), o)
+        })
+        .collect()
+}
+/// emission order, every maximal run of equal values sorted by index
+fn tie_canon(items: &Items) -> Items {
+    items
+        .iter()
+        .map(|(k, o)| {
+            let mut out: Vec<(usize, u64)> = vec![];
+            let mut i = 0;
+            while i < o.len() {
+                let mut j = i;
+                while j < o.len() && o[j].1 == o[i].1 {
+                    j += 1;
+                }
+                let mut g = o[i..j].to_vec();
+                g.sort();
+                out.extend(g);
+                i = j;
+            }
+            (k.clone(), out)
+        })
+        .collect()
+}
+
+macro_rules! drain_iv {
+    ($s:expr) => {{
+        let mut s = $s;
+        let mut out: Items = vec![];
+        while let Some((k, outs)) = s.next() {
+            out.push((k.to_vec(), outs.iter().map(|iv| (iv.index, iv.value)).collect()));
+        }
+        out
+    }};
+}
+macro_rules! run_op {
+    ($op:expr, $b:expr) => {
+        match $op {
+            "union" => drain_iv!($b.union()),
+            "intersection" => drain_iv!($b.intersection()),
+            "symdiff" => drain_iv!($b.symmetric_difference()),
+            "difference" => drain_iv!($b.difference()),
+            _ => panic!("op"),
+        }
+    };
+}
+
+fn run_raw(op: &str, srcs: &[Src]) -> Items {
+    let fsts: Vec<raw::Fst<Vec<u8>>> = srcs.iter().map(|s| raw::Fst::from_iter_map(s.big.iter().cloned()).unwrap()).collect();
+    let mut b = raw::OpBuilder::new();
+    for (i, s) in srcs.iter().enumerate() {
+        match s.kind {
+            'f' => {
+                if i % 2 == 0 {
+                    b.push(&fsts[i])
+                } else {
+                    b.push(fsts[i].stream())
+                }
+            }
+            'r' => match &s.lohi {
+                Some((lo, hi)) => b.push(fsts[i].range().ge(lo).le(hi)),
+                None => b.push(fsts[i].range().gt(b"zz").lt(b"zz")),
+            },
+            's' => b.push(fsts[i].search(s.exact.clone())),
+            _ => {
+                if i % 2 == 0 {
+                    b.push(VecRaw { v: s.want.clone(), i: 0 })
+                } else {
+                    b.push(IntoVecRaw(s.want.clone()))
+                }
+            }
+        }
+    }
+    run_op!(op, b)
+}
+
+fn run_map(op: &str, srcs: &[Src]) -> Items {
+    let maps: Vec<Map<Vec<u8>>> = srcs.iter().map(|s| Map::from_iter(s.big.iter().cloned()).unwrap()).collect();
+    let mut b = fst::map::OpBuilder::new();
+    for (i, s) in srcs.iter().enumerate() {
+        match s.kind {
+            'f' => {
+                if i % 2 == 0 {
+                    b.push(&maps[i])
+                } else {
+                    b.push(maps[i].stream())
+                }
+            }
+            'r' => match &s.lohi {
+                Some((lo, hi)) => b.push(maps[i].range().ge(lo).le(hi)),
+                None => b.push(maps[i].range().gt(b"zz").lt(b"zz")),
+            },
+            's' => b.push(maps[i].search(s.exact.clone())),
+            _ => b.push(VecMap { v: s.want.clone(), i: 0 }),
+        }
+    }
+    run_op!(op, b)
+}
+
+/// the set API yields keys only
+fn run_set(op: &str, srcs: &[Src]) -> Vec<Vec<u8>> {
+    let sets: Vec<Set<Vec<u8>>> = srcs.iter().map(|s| Set::from_iter(s.big.iter().map(|(k, _)| k.clone())).unwrap()).collect();
+    let mut b = fst::set::OpBuilder::new();
+    for (i, s) in srcs.iter().enumerate() {
+        match s.kind {
+            'f' => {
+                if i % 2 == 0 {
+                    b.push(&sets[i])
+                } else {
+                    b.push(sets[i].stream())
+                }
+            }
+            'r' => match &s.lohi {
+                Some((lo, hi)) => b.push(sets[i].range().ge(lo).le(hi)),
+                None => b.push(sets[i].range().gt(b"zz").lt(b"zz")),
+            },
+            's' => b.push(sets[i].search(s.exact.clone())),
+            _ => b.push(VecSet { v: s.want.clone(), i: 0 }),
+        }
+    }
+    macro_rules! keys {
+        ($s:expr) => {{
+            let mut s = $s;
+            let mut out = vec![];
+            while let Some(k) = s.next() {
+                out.push(k.to_vec());
+            }
+            out
+        }};
+    }
+    match op {
+        "union" => keys!(b.union()),
+        "intersection" => keys!(b.intersection()),
+        "symdiff" => keys!(b.symmetric_difference()),
+        "difference" => keys!(b.difference()),
+        _ => panic!("op"),
+    }
+}
+
+fn pred_raw(op: &str, s0: &Kv, s1: &Src) -> bool {
+    let f0 = raw::Fst::from_iter_map(s0.iter().cloned()).unwrap();
+    let f1 = raw::Fst::from_iter_map(s1.big.iter().cloned()).unwrap();
+    macro_rules! go {
+        ($st:expr) => {
+            match op {
+                "disjoint" => f0.is_disjoint($st),
+                "subset" => f0.is_subset($st),
+                "superset" => f0.is_superset($st),
+                _ => panic!("op"),
+            }
+        };
+    }
+    match s1.kind {
+        'f' => go!(&f1),
+        'r' => match &s1.lohi {
+            Some((lo, hi)) => go!(f1.range().ge(lo).le(hi)),
+            None => go!(f1.range().gt(b"zz").lt(b"zz")),
+        },
+        's' => go!(f1.search(s1.exact.clone())),
+        _ => go!(IntoVecRaw(s1.want.clone())),
+    }
+}
+fn pred_set(op: &str, s0: &Kv, s1: &Src) -> bool {
+    let f0 = Set::from_iter(s0.iter().map(|(k, _)| k.clone())).unwrap();
+    let f1 = Set::from_iter(s1.big.iter().map(|(k, _)| k.clone())).unwrap();
+    macro_rules! go {
+        ($st:expr) => {
+            match op {
+                "disjoint" => f0.is_disjoint($st),
+                "subset" => f0.is_subset($st),
+                "superset" => f0.is_superset($st),
+                _ => panic!("op"),
+            }
+        };
+    }
+    match s1.kind {
+        'f' => go!(&f1),
+        'r' => match &s1.lohi {
+            Some((lo, hi)) => go!(f1.range().ge(lo).le(hi)),
+            None => go!(f1.range().gt(b"zz").lt(b"zz")),
+        },
+        's' => go!(f1.search(s1.exact.clone())),
+        _ => go!(VecSet { v: s1.want.clone(), i: 0 }),
+    }
+}
+
+// ---------- generation ----------
+const OPS: [&str; 4] = ["union", "intersection", "symdiff", "difference"];
+const PREDS: [&str; 3] = ["disjoint", "subset", "superset"];
+const KINDS: [char; 4] = ['f', 'r', 's', 'u'];
+
+fn universe() -> Vec<Vec<u8>> {
+    // the empty key, a key that is a prefix of another, and an unrelated key
+    vec![vec![], b"a".to_vec(), b"ab".to_vec(), b"b".to_vec()]
+}
+
+fn rand_kinds(rng: &mut Rng, k: usize, zero_values: bool, stats: &mut Stats) -> String {
+    let api = match rng.below(if zero_values { 4 } else { 3 }) {
+        0 | 1 => "raw",
+        2 => "map",
+        _ => "set",
+    };
+    let mut s = String::new();
+    for _ in 0..k {
+        s.push(*rng.pick(&KINDS));
+    }
+    stats.bump(&format!("api_{}", api));
+    format!("{}:{}", api, s)
+}
+
+fn rand_stream(rng: &mut Rng, pool: &[Vec<u8>], maxlen: usize, vmax: u64) -> Kv {
+    let n = rng.range(0, maxlen);
+    let mut ks: BTreeSet<Vec<u8>> = BTreeSet::new();
+    for _ in 0..n {
+        ks.insert(rng.pick(pool).clone());
+    }
+    ks.into_iter().map(|k| (k, if vmax == 0 { 0 } else { rng.below(vmax + 1) })).collect()
+}
+
+impl Prop for P {
+    fn generate(&self, tier: Tier, rng: &mut Rng, stats: &mut Stats) -> Vec<String> {
+        let mut cases: Vec<String> = vec![];
+        let uni = universe();
+        let subset = |mask: usize, vals: &mut dyn FnMut() -> u64| -> Kv {
+            (0..uni.len()).filter(|i| mask >> i & 1 == 1).map(|i| (uni[i].clone(), vals())).collect()
+        };
+        // (1) exhaustive: all k-tuples of subsets of the 4-key universe, values drawn from {0,1,2}
+        let kmax = match tier {
+            Tier::Quick | Tier::Wide => 3,
+            Tier::Thorough => 4,
+        };
+        for k in 1..=kmax {
+            let n = 16usize.pow(k as u32);
+            for code in 0..n {
+                let zero = rng.chance(1, 4);
+                let mut ss: Vec<Kv> = vec![];
+                for j in 0..k {
+                    let mask = (code >> (4 * j)) & 15;
+                    let mut f = || if zero { 0 } else { rng.below(3) };
+                    ss.push(subset(mask, &mut f));
+                }
+                let st = show_streams(&ss);
+                for op in OPS {
+                    let kinds = rand_kinds(rng, k, zero, stats);
+                    cases.push(format!("{}\t{}\t{}", op, kinds, st));
+                    stats.bump(&format!("exhaustive_subsets_k{}", k));
+                }
+            }
+        }
+        // (2) exhaustive with values: pairs of valued subsets of {"", a, ab}, every value in {0,1,2}
+        {
+            let u3 = &uni[..3];
+            let all: Vec<Kv> = (0..64usize)
+                .map(|c| {
+                    (0..3).filter_map(|i| {
+                        let d = (c >> (2 * i)) & 3;
+                        if d == 3 { None } else { Some((u3[i].clone(), d as u64)) }
+                    }).collect()
+                })
+                .collect();
+            for a in &all {
+                for b in &all {
+                    let st = show_streams(&[a.clone(), b.clone()]);
+                    for op in OPS {
+                        let kinds = rand_kinds(rng, 2, false, stats);
+                        cases.push(format!("{}\t{}\t{}", op, kinds, st));
+                        stats.bump("exhaustive_valued_pairs");
+                    }
+                }
+            }
+        }
+        // (3) random tuples, k up to 6, up to 40 keys per stream, keys from a pool so that they collide
+        let nrand = match tier {
+            Tier::Quick => 5000,
+            Tier::Thorough => 40000,
+            Tier::Wide => 20000,
+        };
+        let mut pool: Vec<Vec<u8>> = vec![vec![]];
+        for a in [b'a', b'b', 0u8, 255u8] {
+            pool.push(vec![a]);
+            for b in [b'a', b'b', 0u8, 255u8] {
+                pool.push(vec![a, b]);
+                for c in [b'a', 0u8, 255u8] {
+                    pool.push(vec![a, b, c]);
+                }
+            }
+        }
+        for _ in 0..nrand {
+            let k = rng.range(1, 6);
+            let zero = rng.chance(1, 4);
+            let vmax = if zero { 0 } else { *rng.pick(&[1u64, 3, 1000, u64::MAX - 1]) };
+            let maxlen = *rng.pick(&[3usize, 8, 20, 40]);
+            let mut ss: Vec<Kv> = (0..k).map(|_| rand_stream(rng, &pool, maxlen, vmax)).collect();
+            // identical and empty streams
+            if k >= 2 && rng.chance(1, 5) {
+                let j = rng.range(0, k - 1);
+                let i = rng.range(0, k - 1);
+                ss[i] = ss[j].clone();
+                stats.bump("random_with_identical_streams");
+            }
+            if rng.chance(1, 8) {
+                let i = rng.range(0, k - 1);
+                ss[i] = vec![];
+                stats.bump("random_with_empty_stream");
+            }
+            let st = show_streams(&ss);
+            for op in OPS {
+                let kinds = rand_kinds(rng, k, zero, stats);
+                cases.push(format!("{}\t{}\t{}", op, kinds, st));
+                stats.bump(&format!("random_k{}", k));
+            }
+        }
+        // (4) all streams identical / all empty, k = 1..6
+        for k in 1..=6 {
+            for _ in 0..20 {
+                let s = rand_stream(rng, &pool, 12, 2);
+                let ss: Vec<Kv> = (0..k).map(|_| s.clone()).collect();
+                let st = show_streams(&ss);
+                for op in OPS {
+                    let kinds = rand_kinds(rng, k, false, stats);
+                    cases.push(format!("{}\t{}\t{}", op, kinds, st));
+                    stats.bump("all_identical");
+                }
+            }
+            let ss: Vec<Kv> = (0..k).map(|_| vec![]).collect();
+            for op in OPS {
+                let kinds = rand_kinds(rng, k, true, stats);
+                cases.push(format!("{}\t{}\t{}", op, kinds, show_streams(&ss)));
+                stats.bump("all_empty");
+            }
+        }
+        // (5) no stream at all
+        for op in ["union", "intersection", "symdiff"] {
+            for api in ["raw", "map", "set"] {
+                cases.push(format!("{}\t{}:\t.", op, api));
+                stats.bump("zero_streams");
+            }
+        }
+        // outside the contract: difference of no streams panics (swap_remove(0) on an empty Vec)
+        for api in ["raw", "map", "set"] {
+            cases.push(format!("difference\t{}:\t.", api));
+            stats.bump("zero_streams_difference_panics");
+        }
+        // (6) predicates: all pairs of subsets of the universe, and random pairs
+        for a in 0..16usize {
+            for b in 0..16usize {
+                for p in PREDS {
+                    for kind in KINDS {
+                        let zero = rng.chance(1, 2);
+                        let mut f = || if zero { 0 } else { rng.below(3) };
+                        let ss = vec![subset(a, &mut f), subset(b, &mut f)];
+                        let api = if zero && rng.chance(1, 2) { "set" } else { "raw" };
+                        cases.push(format!("{}\t{}:f{}\t{}", p, api, kind, show_streams(&ss)));
+                        stats.bump("predicate_exhaustive_pairs");
+                    }
+                }
+            }
+        }
+        for _ in 0..nrand / 2 {
+            let zero = rng.chance(1, 2);
+            let a = rand_stream(rng, &pool, 20, if zero { 0 } else { 5 });
+            let b = match rng.below(4) {
+                0 => a.clone(),
+                1 => a.iter().filter(|_| rng.chance(2, 3)).cloned().collect(),
+                2 => {
+                    let mut b = rand_stream(rng, &pool, 10, 0);
+                    b.extend(a.iter().cloned());
+                    b.sort();
+                    b.dedup_by(|x, y| x.0 == y.0);
+                    b
+                }
+                _ => rand_stream(rng, &pool, 20, if zero { 0 } else { 5 }),
+            };
+            let b: Kv = if zero { b.into_iter().map(|(k, _)| (k, 0)).collect() } else { b };
+            let st = show_streams(&[a, b]);
+            for p in PREDS {
+                let api = if zero && rng.chance(1, 2) { "set" } else { "raw" };
+                cases.push(format!("{}\t{}:f{}\t{}", p, api, rng.pick(&KINDS), st));
+                stats.bump("predicate_random");
+            }
+        }
+        cases
+    }
+
+    fn nontrivial(&self, case: &str) -> bool {
+        // at least two streams, not all of them empty
+        let st = case.split('\t').nth(2).unwrap_or(".");
+        st.contains('|') && st.contains(':')
+    }
+
+    fn execute(&self, case: &str) -> String {
+        let mut it = case.split('\t');
+        let op = it.next().unwrap();
+        let ak = it.next().unwrap();
+        let ss = parse_streams(it.next().unwrap());
+        let (api, kinds) = {
+            let mut p = ak.split(':');
+            (p.next().unwrap(), p.next().unwrap_or(""))
+        };
+        let kinds: Vec<char> = kinds.chars().collect();
+        assert!(kinds.len() == ss.len(), "kinds/streams mismatch");
+        if api == "set" {
+            assert!(ss.iter().all(|s| s.iter().all(|e| e.1 == 0)), "set api needs zero values");
+        }
+        let base: Vec<Src> = ss.iter().map(|s| make_src('f', s)).collect();
+        let srcs: Vec<Src> = ss.iter().zip(&kinds).map(|(s, k)| make_src(*k, s)).collect();
+        let mut x = String::from("ok");
+        if PREDS.contains(&op) {
+            let b0 = pred_raw(op, &ss[0], &base[1]);
+            let b1 = match api {
+                "set" => pred_set(op, &ss[0], &srcs[1]),
+                _ => pred_raw(op, &ss[0], &srcs[1]),
+            };
+            if b0 != b1 {
+                x = format!("baseline says {} but {} says {}", b0, ak, b1);
+            }
+            return format!("S:{}\tM:{}\tX:{}", b1, b1, x);
+        }
+        if op == "difference" && ss.is_empty() {
+            // outside the contract: the expected observation is the panic of swap_remove(0) itself
+            let r = std::panic::catch_unwind(std::panic::AssertUnwindSafe(|| match api {
+                "raw" => run_raw(op, &srcs).len(),
+                "map" => run_map(op, &srcs).len(),
+                _ => run_set(op, &srcs).len(),
+            }));
+            return match r {
+                Err(_) => "S:PANIC\tM:PANIC\tX:ok".to_string(),
+                Ok(n) => format!("S:no panic, {} items\tM:no panic\tX:ok", n),
+            };
+        }
+        let got: Items = match api {
+            "raw" => run_raw(op, &srcs),
+            "map" => run_map(op, &srcs),
+            _ => {
+                let keys = run_set(op, &srcs);
+                let b = run_raw(op, &base);
+                let bk: Vec<Vec<u8>> = b.iter().map(|e| e.0.clone()).collect();
+                if bk != keys {
+                    x = format!("set api keys {:?} differ from raw api keys {:?}", keys, bk);
+                }
+                b
+            }
+        };
+        let b = run_raw(op, &base);
+        if tie_canon(&b) != tie_canon(&got) {
+            x = format!("baseline {} but {} gives {}", show_items(&tie_canon(&b)), ak, show_items(&tie_canon(&got)));
+        }
+        format!("S:{}\tM:{}\tX:{}", show_items(&by_index(&got)), show_items(&tie_canon(&got)), x)
     }
 }
